@@ -141,7 +141,10 @@ public:
             copy_pixels(img._view,_view);
         else
         {
-            image tmp(img);
+            // the copy must live in memory from our own allocator: swap() exchanges the
+            // memory but not necessarily the allocators
+            image tmp(img._align_in_bytes, Alloc(_alloc));
+            tmp.allocate_and_copy(img.dimensions(), img._view);
             swap(tmp);
         }
         return *this;
@@ -154,7 +157,10 @@ public:
             copy_pixels(img._view,_view);
         else
         {
-            image tmp(img);
+            // the copy must live in memory from our own allocator: swap() exchanges the
+            // memory but not necessarily the allocators
+            image tmp(img._align_in_bytes, Alloc(_alloc));
+            tmp.allocate_and_copy(img.dimensions(), img._view);
             swap(tmp);
         }
         return *this;
@@ -265,7 +271,7 @@ public:
         }
         else
         {
-            image tmp(dims, alignment);
+            image tmp(dims, alignment, Alloc(_alloc));
             swap(tmp);
         }
     }
@@ -290,7 +296,7 @@ public:
         }
         else
         {
-            image tmp(dims, p_in, alignment);
+            image tmp(dims, p_in, alignment, Alloc(_alloc));
             swap(tmp);
         }
     }
